@@ -466,3 +466,45 @@ Example C05_prims_nonvacuous :
   List.length (filter (fun Lp => match known_C05_prim (fst Lp) (snd Lp) with None => true | Some _ => false end)
                  (list_prod all_langs c05_all_prims)) = 78%nat.
 Proof. vm_compute. reflexivity. Qed.
+
+(* ====================================================================================== *)
+(* The finding classes are inhabited: on each witness the faithful model fails the spec     *)
+(* ====================================================================================== *)
+Definition c05_obs_st {St} (o : outcome (texp * St)) : option texp := match o with Ok (x, _) => Some x | _ => None end.
+Definition c05_obs (o : outcome texp) : option texp := match o with Ok x => Some x | _ => None end.
+
+Definition c05_ts_with (m : tmap) : ts_config := {| ts_type_mappings := m; ts_no_version_header := true; ts_version := [] |}.
+Definition c05_kt_with (pre : str) (m : tmap) : kt_config :=
+  {| kt_package := []; kt_module_name := []; kt_prefix := pre; kt_type_mappings := m; kt_no_version_header := true; kt_version := [] |}.
+Definition c05_py_with (m : tmap) : py_config := {| py_type_mappings := m; py_no_version_header := true; py_version := [] |}.
+
+(* HashMap<T, String> with T a generic parameter: TypeScript and Python answer with an error *)
+Theorem C05_generic_map_key_refuted :
+  let g := [lit "T"] in let t := RHashMap (RSimple (lit "T")) (RPrim PString) in
+  dom_C05 t = true /\
+  known_C05 TypeScript (c05_ts_cfg (c05_ts_with [])) g t = Some C05K_generic_map_key /\
+  good_C05 TypeScript (c05_ts_cfg (c05_ts_with [])) g t (c05_obs_st (ts_texp (c05_ts_with []) g t [])) = false /\
+  known_C05 Python (c05_py_cfg (c05_py_with [])) g t = Some C05K_generic_map_key /\
+  good_C05 Python (c05_py_cfg (c05_py_with [])) g t (c05_obs_st (py_texp (c05_py_with []) g t py_empty_state)) = false.
+Proof. vm_compute. repeat split; reflexivity. Qed.
+
+(* type_mappings u32 = "Foo": Kotlin (likewise Swift, Scala) still prints UInt *)
+Theorem C05_special_mapping_ignored_refuted :
+  let m := [(lit "u32", lit "Foo")] in let t := RVec (RPrim PU32) in
+  dom_C05 t = true /\
+  known_C05 Kotlin (c05_kt_cfg (c05_kt_with [] m)) [] t = Some C05K_special_mapping_ignored /\
+  kt_texp (c05_kt_with [] m) [] t = Ok (XName (lit "List") [XName (lit "UInt") []]) /\
+  good_C05 Kotlin (c05_kt_cfg (c05_kt_with [] m)) [] t (c05_obs (kt_texp (c05_kt_with [] m) [] t)) = false.
+Proof. vm_compute. repeat split; reflexivity. Qed.
+
+(* container instances are keyed by a lossy Display: the Rust spelling "HashMap<String, u32>" is never
+   found, and the key "Option<Vec>" replaces Option<Vec<String>> although no such type was mapped *)
+Theorem C05_mapping_key_display_refuted :
+  let m1 := [(lit "HashMap<String, u32>", lit "Foo")] in let t1 := RHashMap (RPrim PString) (RPrim PU32) in
+  let m2 := [(lit "Option<Vec>", lit "Foo")] in let t2 := ROption (RVec (RPrim PString)) in
+  known_C05 TypeScript (c05_ts_cfg (c05_ts_with m1)) [] t1 = Some C05K_mapping_key_display /\
+  good_C05 TypeScript (c05_ts_cfg (c05_ts_with m1)) [] t1 (c05_obs_st (ts_texp (c05_ts_with m1) [] t1 [])) = false /\
+  known_C05 TypeScript (c05_ts_cfg (c05_ts_with m2)) [] t2 = Some C05K_mapping_key_display /\
+  ts_texp (c05_ts_with m2) [] t2 [] = Ok (XRaw (lit "Foo"), []) /\
+  good_C05 TypeScript (c05_ts_cfg (c05_ts_with m2)) [] t2 (c05_obs_st (ts_texp (c05_ts_with m2) [] t2 [])) = false.
+Proof. vm_compute. repeat split; reflexivity. Qed.
